@@ -3,6 +3,45 @@ CHECK = dict(level=..., parts=[...], rule=..., bounds=..., assumptions=[...], an
 for the manifest: technique=..., level_text=..., level_note=..., design_ref=...)."""
 import glob, os, runpy
 
+# Build variants: a check that sets variants=[part names] has those parts repeated on other builds of the librfn sources -
+# conditional code (__OPTIMIZE_SIZE__, __OPTIMIZE__, NDEBUG, __clang__), side effects inside assert(), compiler- and
+# ABI-dependent arithmetic show only there. The repository's own Makefile builds without -O, so -O0 is a shipped
+# configuration. The driver keeps a variant's counts apart and tags its violations.
+VARIANTS = [
+    # tag, compiler, extra flags, tiers
+    ('gcc -Os', 'gcc', ['-Os'], ('quick', 'thorough')),
+    ('gcc -O0', 'gcc', ['-O0'], ('quick', 'thorough')),
+    ('gcc -O2 -DNDEBUG', 'gcc', ['-DNDEBUG'], ('quick', 'thorough')),
+    ('clang -O2', 'clang', [], ('thorough',)),
+]
+UNSIGNED_CHAR = ('gcc -O2 -funsigned-char', 'gcc', ['-funsigned-char'], ('quick', 'thorough'))
+
+
+def expand_variants(check):
+    names = check.get('variants')
+    if not names:
+        return check
+    table = list(VARIANTS) + ([UNSIGNED_CHAR] if check.get('variant_unsigned_char') else [])
+    out = []
+    for p in check['parts']:
+        if p['name'] not in names:
+            continue
+        for tag, cc, flags, tiers in table:
+            q = dict(p)
+            q['name'] = p['name'] + '_' + ''.join(ch for ch in tag if ch.isalnum())
+            q['variant'] = tag
+            q['cc'] = cc
+            q['cflags'] = list(p.get('cflags', [])) + flags
+            q['tiers'] = tuple(t for t in tiers if t in p.get('tiers', ('quick', 'thorough')))
+            if q['tiers']:
+                out.append(q)
+    check['parts'] = check['parts'] + out
+    q = ', '.join(t[0] for t in table if 'quick' in t[3])
+    check['bounds'] = dict((k, v + '; the whole enumeration repeated on other builds of the librfn sources, counted separately: ' + q +
+                            (', clang -O2' if k == 'thorough' else '')) for k, v in check['bounds'].items())
+    return check
+
+
 CHECKS = {}
 for _f in sorted(glob.glob(os.path.join(os.path.dirname(os.path.abspath(__file__)), 'checks.d', 'C*.py'))):
-    CHECKS[os.path.basename(_f)[:-3]] = runpy.run_path(_f)['CHECK']
+    CHECKS[os.path.basename(_f)[:-3]] = expand_variants(runpy.run_path(_f)['CHECK'])
